@@ -122,8 +122,14 @@ claim("C10", "loop-carried dependence analysis: linearised access sequences of d
       "table with a reason (3 opaque counters). Equality with stand-alone runs and combined_* tables are not decided.",
       "DESIGN.md 3/C10 (S1)")
 
-for _p in ["C06"]:
-    na(_p, NOT_BUILT)
+claim("C06", "inter-procedural order-taint from possibly-str sets to observable sinks with re-verified triage; ordered fan-in checks; per-task state census",
+      "Decides three structural routes by which hash seed or schedule can reach outputs: (O1) hash-dependent order propagated from "
+      "sets with possibly-str elements through lists, dict insertion order, returns, parameters and attributes never reaches a "
+      "write/join/serialisation, positional selection, enumerate, first-match exit, id allocation or list comparison without an "
+      "order-free operation (7 triaged benign sinks with re-verified side conditions); (O2) pool results consumed via map() only, "
+      "parts merged in sorted order; (O3) no modified class-/module-level state survives a chromosome task. Byte identity, float "
+      "summation order and the read-mapping stage (hash(str) BAM names) are not decided.",
+      "DESIGN.md 3/C06 (O1-O3)")
 
 na("C12", "equality of outputs across .gtf/.gtf.gz/.db, --complete_genedb and BAM partitions is determined by what gffutils "
           "create_db infers and pysam iterators return at run time; the repository adds only glue whose shape does not imply it")
